@@ -224,6 +224,14 @@ def check(prop, tier, seed):
         if not ok_h:
             # the harness only uses exported API; if it no longer builds the tree changed its API
             broken.append(("harness build against /repo", out_h[-3000:]))
+        for pb in spec.get("prebuild", []):
+            cwd = pb.get("cwd", ROOT).format(root=ROOT, repo=REPO)
+            for cp_src, cp_dst in pb.get("copy", []):
+                shutil.copyfile(cp_src.format(root=ROOT, repo=REPO), cp_dst.format(root=ROOT, repo=REPO))
+            rc, out = sh([c.format(bin=BIN, root=ROOT, repo=REPO) for c in pb["cmd"]], cwd=cwd, env=dict(GOENV, **pb.get("env", {})), timeout=1800)
+            if rc != 0:
+                ok_h = False
+                broken.append(("prebuild " + " ".join(pb["cmd"][:3]), out[-3000:]))
         axioms, forbidden, audit_err = ({}, [], "")
         if ok_proofs:
             axioms, forbidden, audit_err = audit(prop)
